@@ -29,7 +29,7 @@ SYNC_RULE = ("sync stream: per case a fresh regtest canister (threshold 1-4, def
 
 PROPS = {
     "C10": {
-        "streams": [{"name": "sync", "quick": 320, "thorough": 3200}],
+        "streams": [{"name": "sync", "quick": 160, "thorough": 3200}],
         "rule": SYNC_RULE,
         "explanation": "theorems: insert_block accepts iff parent in tree, not already a child of it, header valid (C11), body valid (C12) and push succeeds; rejected blocks return no state (atomic); in a response the first "
                        "undecodable/rejected block bumps exactly one counter and the rest is dropped (result independent of the rest); garbage blocks / headers never trap; a complete response is consumed exactly once.",
@@ -39,7 +39,7 @@ PROPS = {
         "assumptions": ["regtest only for the end-to-end stream (proof of work must be mined); mainnet/testnet header rules are covered by C11's stream"],
     },
     "C13": {
-        "streams": [{"name": "sync", "quick": 320, "thorough": 3200}],
+        "streams": [{"name": "sync", "quick": 160, "thorough": 3200}],
         "rule": SYNC_RULE,
         "explanation": "theorems over ALL action sequences of the async transition system (heartbeat split at its await): single flight (pending request iff guard flag), stored response always well-formed (the request-selection "
                        "assertion never fails), request selection (initial names anchor + all other blocks; follow-ups numbered consecutively from 0), page reassembly = concatenation, reject clears partial data and the next "
@@ -69,6 +69,19 @@ PROPS = {
         "level_text": "Machine-checked equality of the code's stability-count walk with the property's definition for all trees/c; contents at the cut block are tied to the ledger by C01's theorems and validated by the `cutat` oracle on every generated state.",
         "level_note": "Trusted: Lean kernel, harness, translator. Hypothesis: block hashes in the tree pairwise distinct (shown necessary by a counterexample in Props/C04.lean).",
         "assumptions": ["blocks fed through unstable_blocks::push with mock difficulties"],
+    },
+    "C11": {
+        "streams": [{"name": "hdr", "quick": 160, "thorough": 2400}, {"name": "sync", "quick": 96, "thorough": 1600}],
+        "rule": "hdr stream: synthetic header stores for mainnet/testnet4/regtest (window from genesis, straddling a multiple of 2016, a full 2016-block period, or arbitrary base; timestamps with 1 s / 1200 s / >1200 s gaps and "
+                "backdated headers; min-difficulty runs vs hard bits), then per store 14 (quick) / 40 (thorough) queries of the required next target (biased to the last height of a period and the window tip; walk-back traps "
+                "included) and of the timestamp rule with the candidate at/around the median and now at/around the +2h edge. Distinct by (network, window, low digits of the answers). " + SYNC_RULE,
+        "explanation": "theorems: validate_header = ok iff (parent known, time <= now+2h, time > median of <= 11 ancestors, target <= network max, hash meets target, target = required target), error precedence; median-time-past = "
+                       "upper median of the first <= 11 ancestors; required target per network = Bitcoin Core's GetNextWorkRequired (2016 retarget with 4x clamp, BIP94 base on testnet4, 20-minute exception and walk-back, no retarget on regtest); "
+                       "clamp bounds and compact-encoding facts (pow limit bits decode to the network maximum).",
+        "technique": "Lean 4 theorems (acceptance = conjunction of consensus rules; algorithm = independent restatement of Core's rule) + differential correspondence on synthetic header stores and mined regtest chains",
+        "level_text": "Machine-checked for all stores/headers/times and the three networks; compact-target arithmetic (from_compact, to_compact_lossy, from_next_work_required) is modelled on Nat with U256 wrap-around made explicit and compared with rust-bitcoin on every generated store.",
+        "level_note": "Trusted: Lean kernel, harness + validation::verif_hooks (verif_next_target, verif_is_timestamp_valid), SHA-256d of rust-bitcoin for header hashes (hashes are given). Proof of work (hash <= target) on mainnet/testnet cannot be mined: whole-header acceptance is exercised end-to-end on regtest only.",
+        "assumptions": ["u32 overflow of prev.time + 1200 and a missing genesis header are outside the modelled domain", "Rust compares targets, Core compares nBits: a non-canonical encoding of the required target is accepted by the code (noted, not part of the property)"],
     },
     "C12": {
         "streams": [{"name": "blk", "quick": 1500, "thorough": 20000}, {"name": "sync", "quick": 160, "thorough": 1600}],
@@ -116,7 +129,7 @@ PROPS = {
         "assumptions": ["payload elements are bytes (< 256)"],
     },
     "C14": {
-        "streams": [{"name": "sync", "quick": 320, "thorough": 3200}],
+        "streams": [{"name": "sync", "quick": 160, "thorough": 3200}],
         "rule": SYNC_RULE,
         "explanation": "theorems: guard passes iff (access enabled, network matches, sync rule); precedence of refusals; refused calls return no state and charge nothing; send_transaction exempt; "
                        "synced iff highest announced header <= best height + SYNCED_THRESHOLD (generated constant pinned to 2). Tie: every endpoint is called under random flag/network/sync states.",
@@ -126,7 +139,7 @@ PROPS = {
         "assumptions": ["native build: a panic is the observable 'trap'; is_watchdog_caller/controller checks of set_config are wasm-only and not modelled"],
     },
     "C16": {
-        "streams": [{"name": "sync", "quick": 320, "thorough": 3200}],
+        "streams": [{"name": "sync", "quick": 160, "thorough": 3200}],
         "rule": SYNC_RULE,
         "explanation": "theorems: charge formulas (metered/flat/send), refusal below maximum before any charge, result <= maximum, query variants accept 0, and from the regenerated tables: "
                        "client constants >= canister default maxima for all three networks and all payload lengths.",
